@@ -43,7 +43,10 @@ def run(tier, seed):
     add_proof_failures(rep, po)
     po2 = proof_obligations("WowVerif.Thm.C09b")      # bounds_lo_sound: the computed minimum bounds every encoding of every closed program
     add_proof_failures(rep, po2)
-    po = dict(po, theorems=dict(po["theorems"], **po2["theorems"]), obligations=po["obligations"] + po2["obligations"], discharged=po["discharged"] + po2["discharged"])
+    po3 = proof_obligations("WowVerif.Thm.C09c")     # bounds_hi_sound / bounds_sound: the computed maximum bounds every encoding within the published limits
+    add_proof_failures(rep, po3)
+    po = dict(po, theorems=dict(po["theorems"], **po2["theorems"], **po3["theorems"]), obligations=po["obligations"] + po2["obligations"] + po3["obligations"],
+              discharged=po["discharged"] + po2["discharged"] + po3["discharged"])
     lim = read_limits()
     want = {"CSTRING_LARGEST_ALLOWED": 256, "SIZED_CSTRING_LARGEST_ALLOWED": 8004, "STRING_LARGEST_POSSIBLE": 256, "CMSG_CAP": 10240}
     m_e = re.search(r"ParsedArraySize::Endless\) \{\s*sizes\.inc\(0, (u16::MAX) as _\);", open(os.path.join(REPO, "wow_message_parser/src/parser/types/parsed/parsed_ty.rs")).read())
@@ -131,7 +134,11 @@ def run(tier, seed):
             reqs.append(f"gen {c['key']} {rng.below(1 << 40)} {2 if s else 12}")
             meta.append((c, lo, hi, glo, ghi))
     gen = d.ask_many(reqs)
+    # the hypothesis of bounds_hi_sound evaluated on the very values behind the sampled encodings (non-vacuity on the corpus)
+    wit = d.ask_many(["within" + r[3:] for r in reqs if r.startswith("gen ")])
     d.close()
+    n_within = sum(1 for w in wit if w.startswith("ok within=1"))
+    n_not_within = sum(1 for w in wit if w.startswith("ok within=0"))
     n_samples = 0
     extremes = {}
     for (c, lo, hi, glo, ghi), g in zip(meta, gen):
@@ -186,10 +193,10 @@ def run(tier, seed):
         "trusted_base": TRUSTED_BASE_COMMON + ["regex extraction of the first size guard of every generated read_inner", "tools/wowm.py, tools/corpus.py",
                                                "the frame limits (cmsg 10240, 2-byte size 65535, Wrath 0xFFFFFF) and string limits are specification parameters re-read from the generator source"],
         "theorems": po["theorems"], "messages_with_guard_checked": n_obl, "limits": lim,
-        "evaluations": n_obl + n_samples, "distinct_nontrivial": n_obl, "sampled_encodings": n_samples, "messages_whose_minimum_was_attained_by_a_sample": attained,
+        "sampled_values_within_limits": n_within, "sampled_values_outside_limits": n_not_within, "evaluations": n_obl + n_samples, "distinct_nontrivial": n_obl, "sampled_encodings": n_samples, "messages_whose_minimum_was_attained_by_a_sample": attained,
         "rule": "one containment obligation per version-expanded world message (model interval capped by the frame limit must lie inside the published guard; constant-sized iff `!=` guard); plus sampled canonical encodings whose lengths must lie in both intervals",
         "samples": [{"container": c["key"], "model": [lo, hi], "guard": [glo, ghi]} for c, lo, hi, glo, ghi in checked[:3]],
     }
     rep.assumptions = ["login messages have no size guard; sizes published in the IR and the doc pages are covered by C10/C18 once the generator pipeline runs",
-                       "general interval soundness (bounds_sound) is checked on sampled encodings; const_sized is proved"]
+                       "bounds_sound (Thm/C09c) is proved for messages inside the generic semantics; for messages with built-in types the interval uses the limits of the hand-written codecs (primBounds) and is checked on sampled encodings"]
     return rep.finish()
